@@ -312,7 +312,8 @@ fn p11_body<const PRE: usize, const OP1: usize, const OP2: usize>() {
     let _ = (rb1, rb2);
     // same state: served from the cache; after progress that opens a new row: never
     kani::cover!(OP1 + OP2 > 0 || served_from_cache);
-    kani::cover!(OP1 + OP2 == 0 || (OP2 != 1 && (OP1 != 1 || OP2 != 0)) || !served_from_cache);
+    let vc_10 = OP1 + OP2 == 0 || (OP2 != 1 && (OP1 != 1 || OP2 != 0)) || !served_from_cache;
+    kani::cover!(vc_10);
     kani::cover!(PRE == 0 || OP1 != 1 || OP2 != 0 || served_from_cache);
     // no drop glue under the solver (nothing is asserted about deallocation)
     std::mem::forget((m0, m1, m2, p, comp));
